@@ -887,6 +887,170 @@ class SimOS:
         self._sim.event('access', path)
         return self._sim.fs.lookup(path) is not None
 
+    # -- less common calls a re-implementation might reach for ---------------------------------
+    def lseek(self, fd, pos, how):
+        self._sim.event('lseek', fd)
+        return self._sim.fs.lseek(fd, pos, how)
+
+    def ftruncate(self, fd, length):
+        sim = self._sim
+        f = sim.event('ftruncate', fd)
+        if f is not None and f[0] == 'errno':
+            _raise(f)
+        sim.fs.ftruncate(fd, length)
+
+    def truncate(self, path, length):
+        fd = self.open(path, _os.O_WRONLY)
+        try:
+            self.ftruncate(fd, length)
+        finally:
+            self.close(fd)
+
+    def pwrite(self, fd, data, offset):
+        sim = self._sim
+        f = sim.event('write', len(data))
+        if f is not None and f[0] == 'errno':
+            _raise(f)
+        of = sim.fs._of(fd)
+        old = of.pos
+        of.pos = offset
+        try:
+            return sim.fs.write(fd, data)
+        finally:
+            of.pos = old
+
+    def pread(self, fd, n, offset):
+        of = self._sim.fs._of(fd)
+        old = of.pos
+        of.pos = offset
+        try:
+            return self._sim.fs.read(fd, n)
+        finally:
+            of.pos = old
+
+    def sync(self):
+        sim = self._sim
+        sim.event('sync')
+        for n in sim.fs.inodes.values():
+            n.synced = bytes(n.data)
+            n.pending = []
+        sim.fs.durable_meta = len(sim.fs.journal)
+
+    def dup(self, fd):
+        sim = self._sim
+        of = sim.fs._of(fd)
+        nfd = sim.fs.next_fd
+        sim.fs.next_fd += 1
+        sim.fs.fds[nfd] = of            # shares the open file description (offset) like dup(2)
+        sim.fs.inodes[of.ino].nopen += 1
+        return nfd
+
+    def symlink(self, target, path, *a, **k):
+        sim = self._sim
+        sim.event('symlink', sim.fs.abspath(path))
+        p = sim.fs.abspath(path)
+        if sim.fs.lexists(p):
+            raise FileExistsError(_errno.EEXIST, 'File exists', path)
+        sim.fs.symlinks[p] = target
+
+    def get_inheritable(self, fd):
+        return not self._sim.fs._of(fd).cloexec
+
+    def set_inheritable(self, fd, flag):
+        self._sim.fs._of(fd).cloexec = not flag
+
+    def getuid(self):
+        return 1000
+
+    geteuid = getuid
+
+    def getgid(self):
+        return 1000
+
+    def mkdir(self, path, *a, **k):
+        raise OSError(_errno.EEXIST, 'File exists', path)
+
+    def makedirs(self, path, mode=0o777, exist_ok=False):
+        if not exist_ok:
+            raise OSError(_errno.EEXIST, 'File exists', path)
+
+
+class SimShutil:
+    """The subset of shutil an implementation might fall back on, over the simulated os."""
+    Error = OSError
+    SameFileError = OSError
+
+    def __init__(self, simos):
+        self._os = simos
+
+    def copyfileobj(self, fsrc, fdst, length=16 * 1024):
+        while True:
+            buf = fsrc.read(length)
+            if not buf:
+                break
+            fdst.write(buf)
+
+    def copyfile(self, src, dst, *a, **k):
+        o = self._os
+        sfd = o.open(src, _os.O_RDONLY)
+        try:
+            dfd = o.open(dst, _os.O_WRONLY | _os.O_CREAT | _os.O_TRUNC, 0o666)
+            try:
+                while True:
+                    buf = o.read(sfd, 64 * 1024)
+                    if not buf:
+                        break
+                    o.write(dfd, buf)
+            finally:
+                o.close(dfd)
+        finally:
+            o.close(sfd)
+        return dst
+
+    def copymode(self, src, dst, *a, **k):
+        self._os.chmod(dst, _stat.S_IMODE(self._os.stat(src).st_mode))
+
+    copystat = copymode
+
+    def copy(self, src, dst, *a, **k):
+        self.copyfile(src, dst)
+        self.copymode(src, dst)
+        return dst
+
+    copy2 = copy
+
+    def move(self, src, dst, *a, **k):
+        self._os.rename(src, dst)
+        return dst
+
+    def __getattr__(self, name):
+        raise Unsimulated('shutil.%s is not simulated' % name)
+
+
+class SimTempfile:
+    """tempfile.mkstemp / NamedTemporaryFile-like creation inside the simulated directory."""
+
+    def __init__(self, simos):
+        self._os = simos
+        self._n = 0
+
+    def mkstemp(self, suffix='', prefix='tmp', dir=None, text=False):
+        d = dir or self._os.getcwd()
+        while True:
+            self._n += 1
+            path = posixpath.join(d, '%s%06d%s' % (prefix, self._n, suffix))
+            try:
+                fd = self._os.open(path, _os.O_RDWR | _os.O_CREAT | _os.O_EXCL, 0o600)
+                return fd, path
+            except FileExistsError:
+                continue
+
+    def gettempdir(self):
+        return self._os.getcwd()
+
+    def __getattr__(self, name):
+        raise Unsimulated('tempfile.%s is not simulated' % name)
+
 
 class SimFcntl:
     F_GETFD, F_SETFD, FD_CLOEXEC = 1, 2, 1
